@@ -65,6 +65,9 @@ Verdict(e) ==
   IF ~Applicable(e) THEN R("Applicable", FirstExc(e), e)
   ELSE IF ~(Shape(e.obs, n) /\ Shape(e.rev, n) /\ Shape(e.affobs, n)) THEN R("Shape", "adjacency", e)
   ELSE IF ~AdjDef(e) THEN R("AdjDef", "visibility_relations", e)
+  \* the pairwise / per-node queries report the same relation
+  ELSE IF e.obs.vis # e.obs.adj THEN R("AdjDef", "visibility", e)
+  ELSE IF e.obs.vis1 # e.obs.adj THEN R("AdjDef", "visibility_single", e)
   ELSE IF ~RevDef(e) THEN R("AdjDef", "visibility_relations(reversed)", e)
   ELSE IF ~AffDef(e) THEN R("AdjDef", "visibility_relations(affine)", e)
   ELSE IF ~AffineInv(e) THEN R("AffineInv", "adjacency", e)
